@@ -9,8 +9,12 @@ mod rng;
 mod t1;
 mod t3;
 mod t5;
+mod t7;
 mod t8;
 mod trace;
+
+#[global_allocator]
+static ALLOC: t7::Counting = t7::Counting;
 
 #[derive(Debug)]
 pub enum SimError {
